@@ -39,6 +39,23 @@ CHECKS = {
               "Quick replays a seeded sample of maximal histories per configuration, thorough replays 200 per configuration of the larger model."),
         technique="TLA+ model of call histories with symbolic terms (TLC exhaustive) + replay of exported histories into the real generators",
     ),
+    "C16": dict(
+        cat="model_checking",
+        text=("specs/ClaExtrema.tla: the running-extrema update (two-column, one-column abs-extreme, frequency-domain +/-max) as an "
+              "AddCase state machine; TLC checks for EVERY assignment of per-case maxima/minima over small alphabets incl. NaN and ties "
+              "and EVERY order of adding 3 cases (1-2 rows; thorough also 4 cases) that the table holds the true extremes, labels and "
+              "abscissae name an attaining case, and per-case columns are in case order; every state is exported. Each complete order is "
+              "replayed into cla.extrema, DR_Results.time_data_recovery / frf_data_recovery (crafted response matrices, stored "
+              "histories, SRS envelope = max over cases) and merge + form_extreme over events (NaN = row absent in an event), with the "
+              "abstract state compared after every action. specs/ApplyUF.tla: call histories of uf tuples sharing one cache, documented "
+              "scaling exported as terms; apply_uf / DR_Event.apply_uf replayed: terms (1e-10), cached = fresh bit-for-bit, d = d_static "
+              "+ d_dynamic, unit factors, input untouched."),
+        ref="4/C16",
+        note=("Trusted: TLC, the generic term evaluator (numpy). Ties: any attaining case/abscissa accepted. One-column semantics as in "
+              "the repo's own test (col 1 largest |v| keeping sign, col 2 smallest). psd_data_recovery only through the shared "
+              "extrema/_store_maxmin path. A genuine defect found by this check was repaired (known_findings.json, fix: d921fe8)."),
+        technique="TLA+ state machine over case histories (TLC exhaustive) + replay into cla.extrema/DR_Results; term export for uncertainty factors",
+    ),
 }
 
 NOT_YET = {}
